@@ -14,7 +14,7 @@ PROPS = {
         "claim": "every execution of 2-3 concurrent callers + scripted peer (answer/error/unknown id/late answer/EOF/read error) + optional canceller/Close thread/write faults within the deviation budget is run on the real jsonrpc2.Connection and checked against the completion oracle (own payload or an error with a cause that occurred; no blocked caller; late calls fail with the closing error)",
         "note": "assumes race-freedom between scheduling points; bounded to K<=3 callers and budget B<=2/3 deviations from the default schedule; map iteration order canonicalised",
         "parts": [
-            {"pkg": "mcp", "mode": "instr", "test": "TestVerifC01"},
+            {"pkg": "mcp", "mode": "instr", "test": "TestVerifC01", "two_phase": True},
         ],
         "assumptions": E1_ASSUME + ["at most 3 concurrent calls, one call per caller"],
     },
@@ -36,7 +36,7 @@ PROPS = {
         "claim": "for every sequence of length <=3 over {notification, tool call, ping} client->server and {progress, log, create-message} server->client, with every user handler parked on a gate that an idle-priority controller opens in every order, and every schedule within the deviation budget, the handler of a notification (and of initialized) finishes before any later message's handler starts; a liveness scenario shows calls do overlap",
         "note": "in-memory transport only in this check (HTTP transports are exercised by C02/C10 harnesses); sequences longer than 3 and budgets beyond B are outside the bound",
         "parts": [
-            {"pkg": "mcp", "mode": "instr", "test": "TestVerifC03"},
+            {"pkg": "mcp", "mode": "instr", "test": "TestVerifC03", "two_phase": True},
         ],
         "assumptions": E1_ASSUME,
     },
@@ -47,7 +47,7 @@ PROPS = {
         "claim": "(i) real sessions: two in-flight tool calls, which one is cancelled and when (early, at first idle moment, after return) plus schedule deviations; only the matching handler may observe ctx.Done, the caller returns with zero virtual time after cancel, the session stays usable; (ii) mcp call() over a scripted transport whose peer answers, answers after the cancel, never answers, or parks the request / the cancel notice write until its context ends: prompt return, the other in-flight call and later calls unaffected, nothing left after the 5s notice timeout",
         "note": "two concurrent calls; budget-bounded schedules; virtual time (a return that needs a timer is a violation)",
         "parts": [
-            {"pkg": "mcp", "mode": "instr", "test": "TestVerifC04"},
+            {"pkg": "mcp", "mode": "instr", "test": "TestVerifC04", "two_phase": True},
         ],
         "assumptions": E1_ASSUME,
     },
@@ -58,8 +58,8 @@ PROPS = {
         "claim": "on every explored execution no handler starts for a request handed over after the close was recorded, such calls get the closing error, running handlers finish before the transport is closed, Close and Wait return, nothing is left running (bubble exit), no panic",
         "note": "handlers return (gates are opened by the idle-priority controller) and the transport honours Close, as the property presumes; bounded budgets",
         "parts": [
-            {"pkg": "internal/jsonrpc2", "mode": "instr", "test": "TestVerifC05", "scenario_prefix": "a/"},
-            {"pkg": "mcp", "mode": "instr", "test": "TestVerifC05", "scenario_prefix": "b/"},
+            {"pkg": "internal/jsonrpc2", "mode": "instr", "test": "TestVerifC05", "scenario_prefix": "a/", "two_phase": True},
+            {"pkg": "mcp", "mode": "instr", "test": "TestVerifC05", "scenario_prefix": "b/", "two_phase": True},
         ],
         "assumptions": E1_ASSUME,
     },
@@ -84,6 +84,18 @@ PROPS = {
             {"pkg": "mcp", "mode": "plain", "test": "TestVerifC17", "gomaxprocs": 2},
         ],
         "assumptions": ["the legacy (2025-06-18) session does not cache list results client-side"],
+    },
+    "C18": {
+        "level": "model_checking",
+        "uses_vsched": True,
+        "technique": "stateless model checking of a server with three real sessions under a controlled scheduler with owned timers: bursts x debounce-timer placements (time deviations) x schedules; plus an explicit-state search over subscribe/unsubscribe/update/close histories",
+        "claim": "(E1) legacy session, 2026-07-28 session with a matching subscriptions/listen and one without: for every burst of 1-3 add/remove changes, every placement of the 10ms debounce timer and every schedule within the budget, each entitled session receives a tools/list_changed after the last change whose handler-time tools/list equals the final server state, unentitled sessions and a server with the capability disabled send none, a list after the handled notification is never an older cached answer (TTL 0 and 60s, with a list call in flight across the change), closed sessions leave no subscription; (E2) all histories up to the depth over subscribe/unsubscribe/resource-updated/close for two legacy and one modern session: resources/updated reaches exactly the currently subscribed sessions",
+        "note": "three sessions, one URI, bursts of <=3 changes; budgets B<=1 (quick) / 2 (thorough)",
+        "parts": [
+            {"pkg": "mcp", "mode": "instr", "test": "TestVerifC18", "scenario_prefix": "burst/", "two_phase": True},
+            {"pkg": "mcp", "mode": "plain", "test": "TestVerifC18Resources", "scenario_prefix": "resource-", "shards": 1, "gomaxprocs": 16, "time_s": {"quick": 120, "thorough": 1200}},
+        ],
+        "assumptions": E1_ASSUME,
     },
     "C19": {
         "level": "model_checking",
@@ -155,7 +167,7 @@ PROPS = {
         "claim": "two sessions (same JSON-RPC ids in both) x two concurrent tools/call POSTs each, each handler sending a request-scoped progress notification and then parking on a gate released in every order, stateful SSE/JSON and stateless, plus each session's standalone stream: on every explored schedule each exchange carries exactly the response (and request-scoped notifications) of its own request, standalone streams carry only their own session's notifications and never a response; a duplicate in-flight id on one session never makes a response travel on the other POST's exchange",
         "note": "two sessions, two requests per session; budgets B<=1 (quick) / 2 (thorough), B<=2/3 for the duplicate-id scenarios; resumed streams are covered by C08",
         "parts": [
-            {"pkg": "mcp", "mode": "instr", "test": "TestVerifC10"},
+            {"pkg": "mcp", "mode": "instr", "test": "TestVerifC10", "two_phase": True},
         ],
         "assumptions": E1_ASSUME,
     },
